@@ -2,6 +2,7 @@ import S3V.Base.Bytes
 import S3V.Crypto.All
 import S3V.Model.Chunked
 import S3V.Spec.Chunked
+import S3V.Model.Prepare
 /-!
 Driver for component `chunked` (C08, C09c).
 
@@ -13,7 +14,8 @@ case line:
 * end-to-end lines (`e2e` as first input field): `e2e seed amz_date region secret declared content_length frames | status
   backend_called content_length_member content_length_header body body_end` — a whole SigV4 streaming `PutObject`
   through `S3Service::call`; the backend must see Content-Length = declared, the verified prefix as body, and a clean
-  end of body iff the upload is complete
+  end of body iff the upload is complete; the header it saw is also compared with the model of the rewrite in
+  `ops::prepare` (`S3V.Prepare.rewrite`, theorem `C08_content_length_rewritten`)
 * the harness runs every stream case twice — always-ready transport, and `Pending` injected at pseudo-random poll
   points — and reports terminal `SCHEDULE` when the two observations differ (C09: arrival timing)
 * `delivered`: `/`-joined hex frames the real stream yielded; `terminal`: ok | underlying |
@@ -93,7 +95,7 @@ def judge (fs : List String) : String :=
         agree id (reason.name ++ (if specData ≠ [] && reason ≠ .complete then "+partial" else "")
           ++ (if multi then "" else "/1frame"))
     | _, _, _, _, _, _, _ => badline id
-  | [_comp, id, "e2e", seedH, dateH, regionH, secretH, declaredS, _clS, framesS, "|", status, called, clMember,
+  | [_comp, id, "e2e", seedH, dateH, regionH, secretH, declaredS, clS, framesS, "|", status, called, clMember,
       clHeader, bodyS, bodyEnd] =>
     -- end to end: the body of a SigV4 streaming PutObject as the recording backend saw it
     match hexDecode seedH, hexDecode dateH, hexDecode regionH, hexDecode secretH, declaredS.toNat?,
@@ -108,6 +110,11 @@ def judge (fs : List String) : String :=
       let (specData, reason) := ChunkedSpec.decodeR sig seed declared (transportBytes frames) (transportBroken frames)
       let specDataH := if specData = [] then "." else hexEncode specData
       let wantStatus := if reason = .complete then "200" else "400"
+      -- model of the header rewrite in `ops::prepare` (`S3V.Prepare.rewrite`, theorem `C08_content_length_rewritten`):
+      -- the request carries `Content-Length: clS` and `x-amz-decoded-content-length: declared`, the check installed
+      -- the chunk-signed decoder
+      let modelCl := S3V.Prepare.rewrite (some clS.toUTF8.toList) clS.toNat? (some declared) true
+      let modelHeader := match modelCl.1 with | some v => String.fromUTF8! ⟨v.toArray⟩ | none => "-"
       if status = "PANIC" then specfail id "panic" "the real code panicked"
       else if called ≠ "1" then specfail id "e2e-backend-not-reached" s!"status={status}"
       else if clMember ≠ toString declared || clHeader ≠ toString declared then
@@ -120,6 +127,7 @@ def judge (fs : List String) : String :=
       else if bodyEnd ≠ "ok" && reason = .complete then
         specfail id "e2e-complete-upload-rejected" s!"backend saw a body error, spec: complete"
       else if status ≠ wantStatus then disagree id s!"status={wantStatus}" s!"status={status}"
+      else if clHeader ≠ modelHeader then disagree id s!"content-length header={modelHeader}" s!"header={clHeader}"
       else agree id ("e2e-" ++ reason.name ++ (if specData ≠ [] && reason ≠ .complete then "+partial" else ""))
     | _, _, _, _, _, _ => badline id
   | _ :: id :: _ => badline id
